@@ -51,8 +51,9 @@ func init() {
 				"C19-V:writer.softChecks/checks-shape",
 				"C19-W:writer/construct@NewBadWriter/checks",
 			}, func(fc *Ctx) { runC19(fc, p) })
+			c19gFixture(c, fx)
 		},
-		FixturePkgs: []string{"./testdata/c19/sql", "./testdata/c19/exec"},
+		FixturePkgs: []string{"./testdata/c19/sql", "./testdata/c19/exec", "./testdata/c19/expr", "./testdata/c19/plan", "./testdata/c19/build", "./testdata/c19/gexec"},
 	})
 }
 
